@@ -94,7 +94,7 @@ def apply_filter(kind, n, data, counter):
 
 def gen(ctx):
     rng = ctx.rng('gen')
-    n = 350 if ctx.tier == 'quick' else 70000
+    n = 1000 if ctx.tier == 'quick' else 70000
     for _ in range(n):
         sender = rng.choice(['src', 'src', 'input', 'counter', 'func', 'not', 'inputexp', 'poll',
                              'oasync', 'initasync'])
